@@ -121,6 +121,8 @@ void sess_make_input(Sess* s, const Plan* p) {
     rng_seed(&r, (uint64_t)plan_get(p, "in_seed", 1), "input");
     s->in = (uint8_t*)malloc(n ? n : 1); s->in_size = n;
     gen_input(&r, (int)plan_get(p, "in_kind", 0), s->in, n);
+    /* optional alphabet reduction: turns random stretches into entropy-only noise (large Huffman literal sections, few matches) */
+    { int const alpha = (int)plan_get(p, "in_alpha", 0); size_t i; if (alpha > 1) for (i = 0; i < n; i++) s->in[i] = (uint8_t)(32 + s->in[i] % alpha); }
 }
 void sess_make_dict(Sess* s, const Plan* p) {
     int kind = (int)plan_get(p, "dict_kind", 0); size_t n = (size_t)plan_get(p, "dict_size", 0); Rng r;
